@@ -200,6 +200,10 @@ def run(R, only=None):
             "select k from p where k in (select k from q)", "select k from p where k not in (select k from q)",
             "select k from p where exists (select * from q where q.k = p.k)", "select k from p where not exists (select * from q where q.k = p.k)",
             "select p.k, q.w from p join q on p.k = q.k", "select p.k, q.w from p left join q on p.k = q.k", "select p.k, q.w from p full join q on p.k = q.k",
+            # semi / anti joins whose two inputs arrive ordered on the key (there is no merge join for them)
+            "select p.k from p where exists (select 1 from q where q.k = p.k)", "select p.k, p.v from p where not exists (select 1 from q where q.k = p.k)",
+            "select k from p where k in (select k from q)", "select k from p where k not in (select k from q) and v > 0",
+            "select p.k from p where exists (select 1 from q where q.k = p.k and q.w > p.v)",
             "select k, count(*) from p group by k", "select k, v from p order by k", "select k from p where k > 3 and k in (select k from q where w > 0)",
             "select p.k from p join q on p.k = q.k where q.w > 1 order by p.k limit 2", "select v, count(*) from p group by v order by v",
         ])
@@ -246,7 +250,8 @@ def run(R, only=None):
             R.property_fails(klass, f"C17 `{c['sql']}` ({c['engine']}) was accepted and planned into {opt['plan'][:160]}; an operator panicked while it ran (execute error: abort)", rep)
             continue
         if not built or "panic" in ran:
-            klass = "KF_C17_subquery_not_executable" if (not built and "(select" in c["sql"]) else \
+            # (the known finding is the dangling column reference / residual apply left by un-nesting, not any plan that cannot be built)
+            klass = "KF_C17_subquery_not_executable" if ("(select" in c["sql"] and ("not found from input" in txt or "Apply is not supported" in txt)) else \
                     "KF_C11_nl_right_full_todo" if "not yet implemented" in txt else "KF_C14_overflow_panics" if "overflow" in txt else None
             R.property_fails(klass, f"C17 `{c['sql']}` ({c['engine']}) was accepted and planned into {opt['plan'][:160]} which the executor cannot run: {txt[:160]}", rep)
         try:
